@@ -42,3 +42,12 @@ Theorem C17_final_value fixer Va Vb P1 P2 k1 k2 tau1 tau2 ff t :
     pvalue (sim_side fixer Va P1 k1 tau1) (sim_side fixer Vb P2 k2 tau2) M' =
     (pvalue (sim_side fixer Va P1 k1 tau1) (sim_side fixer Vb P2 k2 tau2) (t_M0 t) + zsum (fun i => nth i (t_ws t) 0%Z) (t_S t))%Z.
 Proof. exact (irving_elimination_sound P1 P2 _ _ ff t). Qed.
+
+From SCK Require Import IrvStable IrvBridge.
+Theorem C17_final_stable fixer Va Vb P1 P2 k1 k2 tau1 tau2 ff t : let n := length P1 in
+  double_tsf fixer Va Vb P1 P2 k1 k2 tau1 tau2 ff = Some t ->
+  perfect_b n (map fst (t_M0 t)) = true -> perfect_b n (map snd (t_M0 t)) = true ->
+  pstableb P1 P2 (t_M0 t) = true -> strict_onb P1 (t_M0 t) = true ->
+  exposed_full_allb P1 P2 (t_M0 t) (map (fun i => nth i (t_rots t) []) (t_S t)) = true ->
+  exists M', t_out t = Some M' /\ stable P1 P2 n (wives n M').
+Proof. exact (irving_final_stable_wives P1 P2 _ _ ff t). Qed.
